@@ -8,7 +8,7 @@ from oracles.bvn import phi, phi2, uniform_cdf
 
 PROPERTY = "C13"
 RULE = (
-    "configurations = means x variance pairs x correlations (both sides of every branch threshold "
+    "configurations = means x variance pairs (1e-8..1e2, thorough 1e-12..1e8) x correlations (both sides of every branch threshold "
     "0.3/0.75/0.925, up to |r|=0.99999) x entry points (gaussian, bvn_cdf, sbvn_cdf, norm_cdf, uniform); "
     "each evaluated on the full 17x17 grid of standardised points {-1000,-200,-40,-8..8,40,200,1000}^2 (far tails included) and compared point by "
     "point with Plackett's-formula reference; CDF axioms (range, monotone, rectangle mass, tails) on "
@@ -25,7 +25,7 @@ TOL = 1e-7
 
 def configs(tier):
     means = [(0.0, 0.0), (1.5, -2.0)]
-    vars_ = [0.01, 1.0, 100.0]
+    vars_ = [1e-8, 0.01, 1.0, 100.0] if tier == "quick" else [1e-12, 1e-8, 1e-4, 0.01, 1.0, 100.0, 1e8]
     vpairs = list(itertools.product(vars_, vars_))
     if tier == "quick":
         rs = [0.0] + [s * r for r in RS_POS for s in (1, -1)]
